@@ -39,6 +39,13 @@ Proof.
 Qed.
 
 (* ---------- where the items are ---------- *)
+Lemma ncreate_zero : forall l, ncreate l = 0%nat -> ~ In FCreate l.
+Proof.
+  unfold ncreate. induction l; simpl; intros H X; auto. destruct X as [-> | X].
+  - simpl in H. discriminate.
+  - destruct (is_create a); simpl in H; [discriminate | now apply IHl].
+Qed.
+
 Lemma free_empty : forall s p, Inv s -> In FFree (todo s) -> pl s = PLive p -> pitems p = [] /\ pdone p = [].
 Proof.
   intros s p IV F P. destruct IV as [i_tb0 i_todo0 i_act0 i_lock0 i_pn0 i_wf0 i_wu0 i_w10 i_w1b0 i_idle0 i_w20 i_w40 i_hfx0 i_w50].
@@ -50,14 +57,34 @@ Proof.
   assert (TD : exists t, lock s = Some t).
   { destruct (lock s) eqn:L; eauto. rewrite (i_todo0 eq_refl) in F. destruct F. }
   destruct (i_w40 p P NE) as [FC | (w & INW & W)].
-  - assert (ncreate (todo s) = 0%nat) by lia. unfold ncreate in H.
-    induction (todo s); simpl in *; [destruct FC |]. destruct FC as [-> | FC]; simpl in H; [discriminate |].
-    destruct (is_create a); simpl in H; [discriminate | auto].
+  - assert (ncreate (todo s) = 0%nat) by lia. now apply (ncreate_zero (todo s)).
   - assert (LW : is_live (wpc_of s w) = true).
     { destruct W as [AC | (PL & _)]; [| rewrite PL; reflexivity]. destruct (wpc_of s w); try discriminate; reflexivity. }
     unfold nlive in NL. assert (X : In w (filter (fun w => is_live (wpc_of s w)) (wids s))) by (apply filter_In; auto).
     destruct (filter (fun w => is_live (wpc_of s w)) (wids s)); [destruct X | discriminate NL].
 Qed.
+
+Ltac ex_wk :=
+  match goal with
+  | X : wpcf (wk ?s ?w1) = _ |- exists w last, wpcf (if Nat.eqb w ?n then _ else wk ?s w) = _ =>
+    exists w1; eexists;
+    let Q := fresh "Q" in destruct (Nat.eqb w1 n) eqn:Q;
+    [apply Nat.eqb_eq in Q; subst; cbn [wpcf]; first [exact X | congruence | reflexivity] | exact X]
+  | X : wpcf (wk ?s ?w1) = _ |- exists w last, wpcf (wk ?s w) = _ => exists w1; eexists; exact X
+  | |- exists w last, wpcf (if Nat.eqb w ?n then _ else _) = _ =>
+    exists n; eexists; rewrite Nat.eqb_refl; cbn [wpcf]; reflexivity
+  end.
+
+Ltac ex_act :=
+  match goal with
+  | X : act ?s ?t1 = ASubmit _ SBefore |- exists t, (if Nat.eqb t ?n then _ else act ?s t) = _ =>
+    exists t1; let Q := fresh "Q" in destruct (Nat.eqb t1 n) eqn:Q;
+    [apply Nat.eqb_eq in Q; subst; first [exact X | congruence | (rewrite X; reflexivity)] | exact X]
+  | X : act ?s ?t1 = ASubmit _ SBefore |- exists t, act ?s t = _ => exists t1; exact X
+  | |- exists t, (if Nat.eqb t ?n then _ else _) = _ => exists n; rewrite Nat.eqb_refl; reflexivity
+  end.
+
+Ltac si_try := first [ assumption | ex_wk | ex_act | (eexists; split; [reflexivity | assumption]) | (eexists; split; [eassumption | assumption]) ].
 
 Lemma SI_step : forall s l s', Inv s -> SI s -> step s l = Some s' -> SI s'.
 Proof.
@@ -69,6 +96,95 @@ Proof.
   all: ifs.
   all: ssimp.
   all: try assumption.
+  all: repeat match goal with E : pl _ = _ |- _ => rewrite E in * end.
+  all: repeat match goal with E : ohst _ = _ |- _ => rewrite E in * end.
+  all: outs; subst.
+  all: cbn [pitems pdone p_set_items p_set_head p_set_tail p_set_idle p_set_done p_set_started p_set_shut] in *.
   all: intros j; specialize (I j).
-  all: show.
-Admitted.
+  all: unfold upd in *.
+  all: repeat match goal with
+       | |- context [Nat.eqb ?a ?b] => destruct (Nat.eqb a b) eqn:?; bools; subst
+       | H : context [Nat.eqb ?a ?b] |- _ => destruct (Nat.eqb a b) eqn:?; bools; subst
+       end.
+  all: cbn [wpcf wkicked wkpend] in *.
+  all: repeat match goal with E : items _ _ = _ |- _ => rewrite E in * end.
+  all: try exact Logic.I.
+  all: try assumption.
+  all: try (destruct (items s j) eqn:IT; try exact Logic.I; try assumption).
+  all: repeat match goal with
+       | H : _ \/ _ |- _ => destruct H
+       | H : exists _, _ |- _ => destruct H
+       | H : _ /\ _ |- _ => destruct H
+       end.
+  all: try congruence.
+  all: try (left; assumption).
+  all: try (right; left; eauto; fail).
+  all: try (right; right; eauto; fail).
+  all: try (eauto; fail).
+  all: try match goal with H : memb ?n0 (tids _) = false |- _ =>
+         assert (WN : wpcf (wk s n0) = WNone) by
+           (destruct IV as [(_ & _ & _ & T4 & T5 & _) _ _ _ _ _ _ _ _ _ _ _ _ _]; destruct (wpcf (wk s n0)) eqn:Z; auto; exfalso;
+            apply memb_false in H; apply H; apply T4; apply T5; unfold wpc_of; rewrite Z; discriminate) end.
+  all: repeat match goal with E : pitems _ = _ :: _ |- _ => rewrite E in * end.
+  all: rewrite ?in_app_iff in *; cbn [In] in *.
+  all: repeat match goal with
+       | H : _ \/ _ |- _ => destruct H; subst
+       | H : False |- _ => destruct H
+       end.
+  all: repeat match goal with E : lq _ = _ |- _ => rewrite E in * | E : lbatch _ = _ |- _ => rewrite E in * end; cbn [In app] in *.
+  all: repeat match goal with
+       | H : _ \/ _ |- _ => destruct H; subst
+       | H : False |- _ => destruct H
+       end.
+  all: try match goal with X : wpcf (wk _ ?x) = _, E : wpcf (wk _ ?n) = _ |- _ =>
+         lazymatch x with n => fail | _ => idtac end;
+         destruct (Nat.eq_dec x n) as [-> | NEx]; [rewrite E in X; inversion X; subst; clear X |] end.
+  all: try match goal with X : act _ ?x = ASubmit _ SBefore, E : act _ ?n = _ |- _ =>
+         lazymatch x with n => fail | _ => idtac end;
+         destruct (Nat.eq_dec x n) as [-> | NEx]; [rewrite E in X; inversion X; subst; clear X |] end.
+  all: try match goal with E : todo _ = [FFree], L : lock _ = Some _ |- _ =>
+         destruct (i_lock _ IV _ L) as (pp & PP);
+         destruct (free_empty _ pp IV ltac:(rewrite E; now left) PP) as (FE1 & FE2); rewrite PP, ?FE1, ?FE2 in * end.
+  all: try match goal with T : otopb _ = true, X : ohst _ = HCompl ?x |- _ => unfold otopb in T; rewrite X in T; destruct x; try discriminate T end.
+  all: bools.
+  all: try match goal with T : otopb _ = true, X : ohst _ = HCompl ?x |- _ => unfold otopb in T; rewrite X in T; destruct x; try discriminate T end.
+  all: cbn [In] in *.
+  all: try tauto.
+  all: try solve [si_try | left; si_try | right; left; si_try | right; right; si_try].
+  all: repeat match goal with H : HCompl _ = HCompl _ |- _ => inversion H; subst; clear H end.
+  all: cbn [In] in *.
+  all: repeat match goal with
+       | H : _ \/ _ |- _ => destruct H; subst
+       | H : False |- _ => destruct H
+       end.
+  all: try congruence.
+  all: right; right; eexists; split; [reflexivity | assumption].
+Qed.
+
+(* ---------- quiescence ---------- *)
+Lemma quiescent_workers_dead : forall s, Inv s -> quiescent s = true ->
+  forall w, wpc_of s w = WNone \/ wpc_of s w = WDead.
+Proof.
+  intros s IV Q w.
+  destruct IV as [(TN & TO & T3 & T4 & T5 & ND) i_todo0 i_act0 i_lock0 i_pn0 i_wf0 i_wu0 i_w10 i_w1b0 i_idle0 i_w20 i_w40 i_hfx0 i_w50].
+  unfold quiescent in Q. bools.
+  destruct (wpc_of s w) eqn:PC; auto; exfalso.
+  all: assert (INW : In w (wids s)) by (apply T5; rewrite PC; discriminate).
+  all: assert (QT : quiet_thread s w = true) by
+      (match goal with F : forallb _ _ = true |- _ => rewrite forallb_forall in F; apply F end; now apply T4).
+  all: unfold quiet_thread in QT; destruct (T4 w) as (X & _); destruct (X INW) as (_ & KW); rewrite KW, PC in QT; try discriminate.
+  (* a pool thread blocked in its loop with nothing pending and no timer: excluded by W2 *)
+  assert (TD : todo s = []).
+  { apply i_todo0. destruct (lock s); auto. discriminate. }
+  destruct (pl s) as [|p|] eqn:P; bools.
+  - destruct (i_pn0 P) as (X1 & _). rewrite X1 in INW. destruct INW.
+  - assert (LV : is_live (wpc_of s w) = true) by (rewrite PC; reflexivity).
+    destruct (i_w20 p P w INW LV) as [X1 | X1].
+    + match goal with M : memb w (pidle p) = false |- _ => apply memb_false in M; contradiction end.
+    + unfold wit, kick_due in X1. rewrite PC, TD in X1. cbn in X1.
+      destruct X1 as [X1 | (_ & [X1 | X1])]; try discriminate; try congruence; try (destruct X1).
+  - destruct i_w1b0 as (_ & B). assert (NL : nlive s = 0%nat) by (apply B; intros q XX; rewrite P in XX; discriminate XX).
+    unfold nlive in NL. assert (X1 : In w (filter (fun w => is_live (wpc_of s w)) (wids s))).
+    { apply filter_In. split; auto. rewrite PC. reflexivity. }
+    destruct (filter (fun w => is_live (wpc_of s w)) (wids s)); [destruct X1 | discriminate NL].
+Qed.
